@@ -596,7 +596,7 @@ pub fn run(started: Instant) -> i32 {
         rep,
         Meta {
             level: "model_checking",
-            rule: "layer stacks built as `mlar info` builds them (RawLayerReader+reset_position, EncryptionLayerReader, CompressionLayerReader, initialize) over streams produced by the real RawLayerWriter/CompressionLayerWriter and an independent AES-GCM chunk encoder (plus the encryption layer of real ArchiveWriter archives as a second source); for EVERY plaintext length 0..=2*block+chunk+8 and EVERY target in [0,len]: seek from start / from end / from the current position (after a 5-byte read), stream_position, then read to the end, in lock-step with std::io::Cursor (every third target also over a source delivering at most 7 / 1 bytes per read call); plus the complete tree of histories of depth 2 (thorough 3) over boundary targets x 3 seek kinds, read(k) and stream_position for 18 boundary lengths; plus long streams (258 blocks = 1032 chunks on every stack, 65538 chunks on the encryption stack) with seeks of the three kinds to targets around the 256th / 65536th unit edges. non-trivial = distinct (stack, length, history) with length > 0".to_string(),
+            rule: "layer stacks built as `mlar info` builds them (RawLayerReader+reset_position, EncryptionLayerReader, CompressionLayerReader, initialize) over streams produced by the real RawLayerWriter/CompressionLayerWriter and an independent AES-GCM chunk encoder (plus the encryption layer of real ArchiveWriter archives as a second source); for EVERY plaintext length 0..=2*block+chunk+8 and EVERY target in [0,len]: seek from start / from end / from the current position (after a 5-byte read), stream_position, then read to the end, in lock-step with std::io::Cursor (every third target also over a source delivering at most 7 / 1 bytes per read call); plus the complete tree of histories of depth 2 (thorough 3) over boundary targets x 3 seek kinds, read(k) and stream_position for 18 boundary lengths; plus long streams (258 blocks = 1032 chunks on every stack, 65538 chunks on the encryption stack) with seeks of the three kinds to targets around the 256th / 65536th unit edges; thorough tier only, production constants (build P, hook off): one position-stamped stream of 2^32 + 5 MiB + 123 bytes written through the real compression layer writer, seeks of the three kinds to 11 targets around 0, 2^32, the block edge after it and the end, 16-byte reads compared with the stamping function. non-trivial = distinct (stack, length, history) with length > 0".to_string(),
             exhaustive: true,
             bounds: json!({"lengths": format!("0..={maxlen}"), "stacks": Stack::ALL.iter().map(|s| s.tag()).collect::<Vec<_>>(), "tree_depth": depth, "tree_lengths": blens}),
             assumptions: vec!["scaled constants; only targets inside [0, len] are generated (the property's domain); short reads are accepted".to_string()],
@@ -607,6 +607,18 @@ pub fn run(started: Instant) -> i32 {
 
 pub fn replay(path: &str) -> i32 {
     let v = super::load_replay(path);
+    if v["huge"].as_bool() == Some(true) {
+        // runs on the production-constant build, like the part itself
+        let mut rep = Report::new();
+        infra::run_part("p", "huge", &mut rep);
+        for (_, x) in rep.violations.values() {
+            println!("replay: violation {} - {}", x.sig, x.detail);
+        }
+        if !rep.violations.is_empty() {
+            println!("VIOLATION property=C11 replay={path}");
+        }
+        return if rep.violations.is_empty() { 0 } else { 1 };
+    }
     let stack = Stack::from_tag(v["stack"].as_str().unwrap_or(""));
     let len = v["len"].as_u64().unwrap_or(0) as usize;
     let hist: Vec<S> = v["history"].as_array().map(|a| a.iter().map(sparse).collect()).unwrap_or_default();
